@@ -294,7 +294,7 @@ package builder
 //@ func AssignTo.WithIndex(a; s)
 //@   props C03 C13
 //@   requires@C13 AssignOK(a)
-//@   ensures result != nil && isFresh(result) && result.Stmt != nil
+//@   ensures result != nil && isFresh(result) && result.Stmt != nil && !result.Must && !result.Update
 //@ func AssignTo.MustAssign(a; )
 //@   props C03
 //@   inline
@@ -374,6 +374,10 @@ package builder
 // C08: a member maps by enum:map, else by the transformers, else to the member of the same name
 //@   at@C08 call caseAction#1 assert arg5 == ite(has(ctx.Conf.EnumMapping.Map, sourceName), ctx.Conf.EnumMapping.Map[sourceName],
 //@           ite(has(transformerMapping, sourceName), transformerMapping[sourceName], sourceName))
+// C08: every source member counts as existing for the "configured key does not exist" check, whether or not it gets
+// its own case (members with equal values share one)
+//@   loop@C08 2 invariant idx > 0 ==> reached("delete#1")
+//@   at@C08 call delete#1 assert same(arg0, definedKeys) && arg1 == sourceName
 // C08: the fallback for values outside the enum is the configured enum:unknown, and without one generation fails
 //@   at@C08 call caseAction#2 assert arg5 == ctx.Conf.Common.Enum.Unknown && arg5 != ""
 // C04: the source expression itself is only passed through where that is allowed
@@ -619,6 +623,9 @@ package builder
 //@   ensures@C03,C04 err == nil ==> reached("gen.Build#1") && reached("gen.Assign#1")
 //@   at@C03,C04 call gen.Build#1 assert arg2 == source.MapKey && arg3 == target.MapKey
 //@   at@C03,C04 call gen.Assign#1 assert arg3 == source.MapValue && arg4 == target.MapValue
+// C11/C03: every key gets an entry -- the value is always built and assigned (never left out for a nil or zero source
+// value), into the target map indexed by the converted key
+//@   at@C11,C03 call gen.Assign#1 assert arg1 != nil && arg1.Must && !arg1.Update
 //@   propagates
 // C07: key and value conversions get the path extended by the range key variable of the emitted loop
 //@   at@C07 call gen.Build#1 assert len(arg4) == len(old(errPath)) + 1 && (forall j int :: 0 <= j && j < len(old(errPath)) ==> arg4[j] == old(errPath)[j])
@@ -643,7 +650,7 @@ package builder
 //@   loop@C13 1 invariant nextIDCode != nil && nextSource != nil
 //@   at call NewError#1 assert skip ==> ctx.Conf.IgnoreMissing && dynIs[*xtype.NoMatchError](err)
 // C01 (F5): a source FIELD on a mapping path is only read when it is accessible from the output package
-//@   at@C01 call Dot#1 assert !dynIs[*types.Var](sourceMatch.Obj) || xtype.Accessible(sourceMatch.Obj, ctx.OutputPackagePath)
+//@   at@C01,C03 call Dot#1 assert !dynIs[*types.Var](sourceMatch.Obj) || xtype.Accessible(sourceMatch.Obj, ctx.OutputPackagePath)
 // C01/C14: a struct method or func field used as a source is parsed with "no source", against the OUTPUT package
 // (an unexported method of another package is rejected), and is called on the resolved source expression
 //@   at@C01,C14 call method.Parse#1 assert arg0 == types.Object(nextSource.FuncType) && arg1.OutputPackagePath == ctx.OutputPackagePath && arg1.Params == method.ParamsNone
